@@ -363,6 +363,19 @@ fn run_child_inner(ctx: &mut Ctx, child: &Child, subdir: bool) -> ChildResult {
                 .collect()
         })
         .unwrap_or_default();
+    if crate::harness::trace_on() {
+        crate::harness::trace_note(format!(
+            "-- child: sfs {} (plan: {}) -> code={:?} signal={:?}",
+            args.join(" "),
+            child.plan.as_ref().map(|p| format!("{p:?}")).unwrap_or_else(|| "none".into()),
+            status.code(),
+            status.signal()
+        ));
+        let evs: &Vec<ShimEvent> = &events;
+        for e in evs.iter().take(400) {
+            crate::harness::trace_note(format!("   shim {} call={} off={} req={} ret={} errno={}", e.op, e.call, e.off, e.req, e.ret, e.err));
+        }
+    }
     ChildResult {
         code: status.code(),
         signal: status.signal(),
